@@ -116,7 +116,7 @@ def trigger_text(trig, case, ctx, sp):
     return recase(trig, case)
 
 
-def build(placements, seed=0):
+def build(placements, seed=0, modname='c05_mod'):
     """placements: list of (trigger, position, case).  Returns dict(source, expect...)"""
     sp = spell(seed)
     w = sp['w']
@@ -170,9 +170,9 @@ def build(placements, seed=0):
                      f"       & {', '.join(line2)}{conv2})")
     else:
         open_stmt = f"open({unit_arg}, file='{fname}', form='unformatted', access='stream', status='replace'{conv1})"
-    directive = f'#define C05_UNUSED {T("directive", "plain")}\n' if 'directive' in P else ''
+    directive = f'#define {modname.upper()}_UNUSED {T("directive", "plain")}\n' if 'directive' in P else ''
     # the ident assignment is written without blanks around '=' so that 'xconvert=' / 'xnewunit=' occur literally
-    src = f"""module c05_mod
+    src = f"""module {modname}
   implicit none
 contains
   subroutine kern(n)
@@ -202,7 +202,7 @@ contains
     print '(A)', trim(fname)
     print '(I0,1X,I0,1X,I0)', ival, jval, {ident}
   end subroutine kern
-end module c05_mod
+end module {modname}
 """
     # literal values as Fortran sees them (a doubled delimiter would be one character; none are generated)
     expect_lits = {'s1': [lit['s1']], 's2': [lit['s2']], 's3': ['left', lit['s3b']], 's4': [lit['s4']]}
@@ -210,12 +210,26 @@ end module c05_mod
                 open_stmt=open_stmt, cont_real=cont_form)
 
 
-DRIVER = """program c05_drv
-  use c05_mod, only: kern
-  implicit none
-  call kern(3)
-end program c05_drv
-"""
+def driver(modnames):
+    """Harness-owned driver (never goes through Loki): calls every kernel, framing its output."""
+    lines = ['program c05_drv']
+    lines += [f'  use {m}, only: kern_{k} => kern' for k, m in enumerate(modnames)]
+    lines += ['  implicit none']
+    for k, m in enumerate(modnames):
+        lines += [f"  print '(A)', '#@ {m}'", f'  call kern_{k}(3)']
+    lines += ['end program c05_drv', '']
+    return '\n'.join(lines)
+
+
+def split_frames(out):
+    frames, cur = {}, None
+    for line in out.split('\n'):
+        if line.startswith('#@ '):
+            cur = line[3:].strip()
+            frames[cur] = []
+        elif cur is not None:
+            frames[cur].append(line)
+    return {k: '\n'.join(v) for k, v in frames.items()}
 
 
 def open_args(stmt_tokens):
@@ -282,13 +296,14 @@ def ir_facts(sf):
     return lits, comments, names
 
 
-def judge(placements, seed=0, scratch=None, stage_gf=True):
-    """Returns (atoms, info): atoms = list of (slot, kind, detail)."""
+def analyse(placements, seed=0, modname='c05_mod'):
+    """Stages 1-5 (no compiler).  Returns dict(atoms=[(slot, kind, detail)], info, source, regen)."""
     _silence()
     from loki import Sourcefile, Frontend
-    b = build(placements, seed)
+    b = build(placements, seed, modname)
     info = dict(parsed=False, unsupported=False, compared=False)
     atoms = []
+    res = dict(atoms=atoms, info=info, source=b['source'], regen=None, modname=modname)
     try:
         sf = Sourcefile.from_source(b['source'], frontend=Frontend.FP)
         regen = sf.to_fortran()
@@ -296,10 +311,11 @@ def judge(placements, seed=0, scratch=None, stage_gf=True):
     except Exception as e:  # pylint: disable=broad-except
         if b['cont_real']:
             info['unsupported'] = True
-            return atoms, info
+            return res
         atoms.append(('program', 'does not parse', f'{type(e).__name__}: {str(e)[:160]}'))
-        return atoms, info
+        return res
     info['parsed'] = True
+    res['regen'] = regen
     for var, want in b['lits'].items():
         got = lits.get(var, [])
         if sorted(got) != sorted(want):
@@ -325,23 +341,58 @@ def judge(placements, seed=0, scratch=None, stage_gf=True):
             atoms.append(('openfile', 'OPEN statement altered',
                           f'lost {lost} changed {changed} extra {sorted(set(o_reg or {}) - set(o_src))}; '
                           f'regenerated: {" ".join(ro or [])[:200]}'))
-    if stage_gf:
-        r0 = gf.compile_and_run([('c05_mod.f90', b['source']), ('drv.f90', DRIVER)], flags=['-cpp'], base=scratch)
-        if not r0['ok']:
-            raise RuntimeError(f'harness: original program does not build/run ({r0["stage"]}): {r0["err"][-300:]}\n'
-                               + b['source'])
-        r1 = gf.compile_and_run([('c05_mod.f90', regen + '\n'), ('drv.f90', DRIVER)], flags=['-cpp'], base=scratch)
-        info['compared'] = True
-        info['out'] = r0['out']
-        if not r1['ok']:
-            first = next((l for l in r1['err'].split('\n') if l.startswith('Error')), r1['err'][-160:])
-            atoms.append(('program', 'regenerated code does not compile' if r1['stage'] == 'compile'
-                          else 'regenerated program fails at run time', first[:200]))
-        elif r1['out'] != r0['out']:
-            d0, d1 = r0['out'].split('\n'), r1['out'].split('\n')
+    return res
+
+
+GF_FLAGS = ['-cpp']
+
+
+def _first_error(err):
+    return next((l for l in err.split('\n') if l.startswith('Error')), err.strip()[-160:])[:200]
+
+
+def gf_stage(results, scratch):
+    """Compile+run the originals of all parsed cases as one program, the regenerated modules as another, and
+    compare the framed outputs per case (atoms are appended in place).  A regenerated batch that does not build is
+    re-run case by case so that the failure is attributed to exactly one case."""
+    todo = [r for r in results if r['regen'] is not None]
+    if not todo:
+        return
+    mods = [r['modname'] for r in todo]
+    r0 = gf.compile_and_run([('orig.f90', '\n'.join(r['source'] for r in todo)), ('drv.f90', driver(mods))],
+                            flags=GF_FLAGS, base=scratch, timeout=300)
+    if not r0['ok']:
+        raise RuntimeError(f'harness: original programs do not build/run ({r0["stage"]}): {r0["err"][-400:]}')
+    f0 = split_frames(r0['out'])
+    r1 = gf.compile_and_run([('regen.f90', '\n'.join(r['regen'] + '\n' for r in todo)), ('drv.f90', driver(mods))],
+                            flags=GF_FLAGS, base=scratch, timeout=300)
+    f1 = split_frames(r1['out']) if r1['ok'] else None
+    for r in todo:
+        m = r['modname']
+        r['info']['compared'] = True
+        r['info']['out'] = f0[m]
+        if f1 is not None:
+            out1, fail = f1.get(m), None
+        else:
+            x = gf.compile_and_run([('regen.f90', r['regen'] + '\n'), ('drv.f90', driver([m]))], flags=GF_FLAGS,
+                                   base=scratch, timeout=120)
+            out1 = split_frames(x['out']).get(m) if x['ok'] else None
+            fail = None if x['ok'] else ('regenerated code does not compile' if x['stage'] == 'compile'
+                                         else 'regenerated program fails at run time', _first_error(x['err']))
+        if fail:
+            r['atoms'].append(('program', fail[0], fail[1]))
+        elif out1 != f0[m]:
+            d0, d1 = f0[m].split('\n'), (out1 or '').split('\n')
             k = next((i for i, (x, y) in enumerate(zip(d0, d1)) if x != y), min(len(d0), len(d1)))
-            atoms.append(('program', 'output differs', f'line {k + 1}: original {d0[k:k + 1]!r}, regenerated {d1[k:k + 1]!r}'))
-    return atoms, info
+            r['atoms'].append(('program', 'output differs',
+                               f'line {k + 1}: original {d0[k:k + 1]!r}, regenerated {d1[k:k + 1]!r}'))
+
+
+def judge(placements, seed=0, scratch=None):
+    """One case, all stages.  Returns (atoms, info)."""
+    r = analyse(placements, seed)
+    gf_stage([r], scratch)
+    return r['atoms'], r['info']
 
 
 CONTEXT = {'sq': 'character literal', 'dq': 'character literal', 'open_lit': 'character literal',
@@ -376,22 +427,19 @@ def all_singles():
     return [(t, pos, c) for t in TRIGGERS for pos in POSITIONS for c in CASES if applicable(t, pos)]
 
 
-def work_single(arg):
-    p, seed, scratch = arg
+def work_batch(arg):
+    """arg = (list of placement lists, seed, scratch) -> list of (placements, atoms, info) or an error string."""
+    cases, seed, scratch = arg
     try:
-        atoms, info = judge([p], seed, scratch)
-        return p, atoms, info, None
+        results = [analyse(pl, seed, modname=f'c05_mod_{k}') for k, pl in enumerate(cases)]
+        gf_stage(results, scratch)
+        return [(pl, r['atoms'], r['info']) for pl, r in zip(cases, results)], None
     except Exception as e:  # pylint: disable=broad-except
-        return p, [], {}, f'{type(e).__name__}: {e}'
+        return [], f'{type(e).__name__}: {e}'
 
 
-def work_pair(arg):
-    pa, pb, seed, scratch, fa, fb = arg
-    try:
-        atoms, info = judge([pa, pb], seed, scratch)
-        return pa, pb, atoms, info, None
-    except Exception as e:  # pylint: disable=broad-except
-        return pa, pb, [], {}, f'{type(e).__name__}: {e}'
+def batches(cases, size):
+    return [cases[k:k + size] for k in range(0, len(cases), size)]
 
 
 def run(ctx):
@@ -405,9 +453,10 @@ def run(ctx):
     base_out = info['out']
     # ---- d = 1
     singles = seeded_order(all_singles(), ctx.seed)
-    res1 = ctx.pmap(work_single, [(p, ctx.seed, scratch) for p in singles], chunksize=2)
-    errs = [f'{p}: {e}' for p, _, _, e in res1 if e]
+    out1 = ctx.pmap(work_batch, [(bt, ctx.seed, scratch) for bt in batches([[p] for p in singles], 8)], chunksize=1)
+    errs = [e for _, e in out1 if e]
     ctx.require(not errs, 'harness error in single placements: ' + ' | '.join(errs[:3]))
+    res1 = [(pl[0], atoms, info, None) for lst, _ in out1 for pl, atoms, info in lst]
     table = {}
     unsupported = 0
     outputs = {base_out}
@@ -433,11 +482,13 @@ def run(ctx):
                                                                                   CASES.index(p[2]))), 2):
             if slot_of(pa) == slot_of(pb) or pa[2] != pb[2]:
                 continue            # bound: both triggers of a pair use the same letter-case variant
-            pairs.append((pa, pb, ctx.seed, scratch, None, None))
+            pairs.append((pa, pb))
         pairs = seeded_order(pairs, ctx.seed)
-        res2 = ctx.pmap(work_pair, pairs, chunksize=4)
-        errs = [f'{pa}+{pb}: {e}' for pa, pb, _, _, e in res2 if e]
+        out2 = ctx.pmap(work_batch, [(bt, ctx.seed, scratch) for bt in batches([[pa, pb] for pa, pb in pairs], 24)],
+                        chunksize=1)
+        errs = [e for _, e in out2 if e]
         ctx.require(not errs, 'harness error in pair placements: ' + ' | '.join(errs[:3]))
+        res2 = [(pl[0], pl[1], atoms, info, None) for lst, _ in out2 for pl, atoms, info in lst]
         npairs = len(pairs)
         for pa, pb, atoms, info, _ in res2:
             unsupported += bool(info.get('unsupported'))
